@@ -199,6 +199,8 @@ def score_magnitude(spec, X, length, default="CUSUM"):
         # (the reference evaluates the very same user code on the same data; 1e-3 keeps the comparison meaningful for data on
         # a huge level, where M^2 is ten orders of magnitude above the score)
         return 1e-3 * p * (length ** 0.5) * M * M
+    if isinstance(inner, dict) and isinstance(inner.get("param"), (int, float)):
+        M += abs(float(inner["param"]))  # deviations from a fixed mean
     return p * length * M * M  # squared-error costs
 
 
